@@ -1165,6 +1165,8 @@ class Interp(Engine):
                 if name == 'ndim':
                     return self.app('attr.ndim', [base], 'int')
                 return self.app(f'attr.{name}', [base])
+            if isinstance(base, SV):
+                return self.app(f'attr.{name}', [base])
             return FuncV('method', name, self_val=base)
         if isinstance(base, tuple) and name in ('index', 'count'):
             return FuncV('method', name, self_val=base)
@@ -1430,7 +1432,16 @@ class Interp(Engine):
 
     # ================================================================= calls
     def ex_Call(self, e, env):
-        fn = self.eval(e.func, env)
+        fn = None
+        if isinstance(e.func, ast.Attribute):
+            base = self.eval(e.func.value, env)
+            if isinstance(base, (SV, SeqV, ArrV, DictV, str, tuple)) or \
+                    (isinstance(base, Obj) and e.func.attr not in base.fields):
+                fn = FuncV('method', e.func.attr, self_val=base)
+            else:
+                fn = self.getattr(base, e.func.attr)
+        else:
+            fn = self.eval(e.func, env)
         args = []
         for a in e.args:
             if isinstance(a, ast.Starred):
